@@ -1,5 +1,5 @@
 (* Archive level: record accounting, read (write es) = es, conversion fixpoint. *)
-From Coq Require Import List NArith ZArith Bool Lia ZifyBool ZifyNat ZifyN.
+From Coq Require Import List NArith ZArith Bool Lia ZifyBool ZifyNat ZifyN Permutation.
 From SqfsV Require Import C04.TarNum C04.TarNumProofs C04.TarHdr C04.TarHdrProofs
      C04.TarStream C04.TarStreamProofs C18.CanonModel C18.CanonSpec C18.CanonProofs.
 Import ListNotations.
@@ -456,15 +456,16 @@ Qed.
 
 (* one entry through sqfs2tar -> tar iterator -> tar2sqfs -> image: sqfs2tar
    writes the same bytes for it again *)
-Lemma reimage_view_same t counter :
+Lemma reimage_view_same t xs counter :
   e_mode (te_e t) < 65536 -> img_shape t ->
-  write_entry_hdr (reimage (view t)) counter = write_entry_hdr t counter /\
-  body (reimage (view t)) = body t.
+  (e_hardlink (te_e t) = false -> xs = te_xattr t) ->
+  write_entry_hdr (reimage (view t) xs) counter = write_entry_hdr t counter /\
+  body (reimage (view t) xs) = body t.
 Proof.
-  intros Hm S. pose proof (view_mode t Hm S) as Emode.
+  intros Hm S Hxs. pose proof (view_mode t Hm S) as Emode.
   destruct (view_facts t) as (Fh & Fu & Fg & Ft & Fn & Ftg & Fs & Fd).
   destruct (is_name t S) as (c & Hc & Hname).
-  assert (Ename : e_name (te_e (reimage (view t))) = e_name (te_e t)).
+  assert (Ename : e_name (te_e (reimage (view t) xs)) = e_name (te_e t)).
   { unfold reimage. cbn [te_e e_name]. rewrite Emode, Fn. unfold canon_name. rewrite Hc. symmetry. exact Hname. }
   assert (Elm : e_hardlink (te_e t) = true -> is_reg (e_mode (te_e t)) = false).
   { intro Hh. rewrite (is_linkmode t S (or_introl Hh)). reflexivity. }
@@ -482,7 +483,7 @@ Proof.
       destruct (e_hardlink (te_e t)) eqn:Hh; [|reflexivity].
       unfold is_dev in D. rewrite (is_linkmode t S (or_introl Hh)) in D. discriminate.
     + unfold reimage. cbn [te_e te_target e_mode e_hardlink]. rewrite Emode, Fh. exact Ftg.
-    + unfold reimage. cbn [te_e te_xattr e_hardlink]. rewrite Fh. intro Hh. rewrite view_xattr, Hh. reflexivity.
+    + unfold reimage. cbn [te_e te_xattr e_hardlink]. rewrite Fh. intro Hh. rewrite (Hxs Hh). reflexivity.
   - unfold body, reimage. cbn [te_e te_data e_mode e_hardlink e_size]. rewrite Emode, Fh.
     destruct (is_reg (e_mode (te_e t)) && negb (e_hardlink (te_e t))) eqn:R; [|reflexivity].
     rewrite (Fs eq_refl). unfold view. cbn [te_data].
@@ -497,23 +498,113 @@ Proof.
   unfold views in *. cbn [flat_map map]. rewrite Ht. cbn [app]. rewrite IH by exact Hes. reflexivity.
 Qed.
 
-Lemma write_entries_reimage es : forall counter,
-  Forall entry_ok es -> Forall img_shape es ->
-  write_entries (map reimage (map view es)) counter = write_entries es counter.
+(* ---- the xattr writer's order ---- *)
+Fixpoint xsorted (tbl : list (list N)) (l : list xattr) : Prop :=
+  match l with
+  | [] => True
+  | x :: r => match r with
+              | [] => True
+              | y :: _ => (key_pos tbl (fst x) <= key_pos tbl (fst y))%nat
+              end /\ xsorted tbl r
+  end.
+
+Lemma xins_sorted tbl x l : xsorted tbl l -> xsorted tbl (xins tbl x l).
 Proof.
-  induction es as [|t es IH]; intros counter Hok Hsh; [reflexivity|].
+  induction l as [|y r IH]; intro H; cbn [xins]; [cbn; tauto|].
+  destruct (Nat.leb (key_pos tbl (fst x)) (key_pos tbl (fst y))) eqn:E.
+  - apply Nat.leb_le in E. cbn [xsorted]. split; [exact E|exact H].
+  - apply Nat.leb_gt in E. cbn [xsorted] in H. destruct H as [H1 H2]. specialize (IH H2).
+    cbn [xsorted]. split; [|exact IH].
+    destruct r as [|z r']; cbn [xins].
+    + lia.
+    + destruct (Nat.leb (key_pos tbl (fst x)) (key_pos tbl (fst z))); lia.
+Qed.
+
+Lemma xsort_sorted tbl l : xsorted tbl (xsort tbl l).
+Proof. induction l as [|x l IH]; cbn [xsort fold_right]; [exact I|]. apply xins_sorted. exact IH. Qed.
+
+Lemma xsort_of_sorted tbl l : xsorted tbl l -> xsort tbl l = l.
+Proof.
+  induction l as [|x r IH]; intro H; [reflexivity|]. cbn [xsorted] in H. destruct H as [H1 H2].
+  change (xsort tbl (x :: r)) with (xins tbl x (xsort tbl r)). rewrite (IH H2).
+  destruct r as [|y r']; [reflexivity|]. cbn [xins]. apply Nat.leb_le in H1. rewrite H1. reflexivity.
+Qed.
+
+Lemma xins_Forall (P : xattr -> Prop) tbl x l : P x -> Forall P l -> Forall P (xins tbl x l).
+Proof.
+  intros Hx. induction l as [|y r IH]; intro H; cbn [xins]; [repeat constructor; exact Hx|].
+  inversion H; subst. destruct (Nat.leb _ _); constructor; auto.
+Qed.
+
+Lemma xsort_Forall (P : xattr -> Prop) tbl l : Forall P l -> Forall P (xsort tbl l).
+Proof.
+  induction l as [|x l IH]; intro H; [constructor|]. inversion H; subst.
+  change (xsort tbl (x :: l)) with (xins tbl x (xsort tbl l)). apply xins_Forall; auto.
+Qed.
+
+Lemma filter_all {A} (f : A -> bool) l : Forall (fun x => f x = true) l -> filter f l = l.
+Proof. induction 1 as [|x l Hx Hl IH]; cbn [filter]; [reflexivity|]. rewrite Hx, IH. reflexivity. Qed.
+
+Lemma filter_none {A} (f : A -> bool) l : Forall (fun x => f x = false) l -> filter f l = [].
+Proof. induction 1 as [|x l Hx Hl IH]; cbn [filter]; [reflexivity|]. rewrite Hx. exact IH. Qed.
+
+Lemma filter_Forall_true {A} (f : A -> bool) l : Forall (fun x => f x = true) (filter f l).
+Proof. apply Forall_forall. intros x Hx. apply filter_In in Hx. apply Hx. Qed.
+
+(* storing what was stored changes nothing: same table, same order *)
+Lemma store_xattrs_idem tbl xs :
+  store_xattrs tbl (snd (store_xattrs tbl xs)) = store_xattrs tbl xs.
+Proof.
+  unfold store_xattrs. cbn [snd].
+  set (f := fun x : list N * list N => key_mem tbl (fst x)).
+  set (g := fun x : list N * list N => negb (key_mem tbl (fst x))).
+  set (old := filter f xs). set (nw := filter g xs).
+  assert (Ho : Forall (fun x => f x = true) (xsort tbl old)).
+  { apply xsort_Forall. apply filter_Forall_true. }
+  assert (Hn : Forall (fun x => g x = true) nw) by apply filter_Forall_true.
+  assert (Ho' : Forall (fun x => g x = false) (xsort tbl old)).
+  { eapply Forall_impl; [|exact Ho]. intros x Hx. unfold g. unfold f in Hx. rewrite Hx. reflexivity. }
+  assert (Hn' : Forall (fun x => f x = false) nw).
+  { eapply Forall_impl; [|exact Hn]. intros x Hx. unfold g in Hx. unfold f.
+    destruct (key_mem tbl (fst x)); [discriminate|reflexivity]. }
+  rewrite !filter_app. unfold xattr in *.
+  rewrite (filter_all f _ Ho), (filter_none f _ Hn'), (filter_none g _ Ho'), (filter_all g _ Hn).
+  rewrite app_nil_r. cbn [app]. rewrite xsort_of_sorted by apply xsort_sorted. reflexivity.
+Qed.
+
+Lemma store_xattrs_nil tbl : store_xattrs tbl [] = (tbl ++ [], []).
+Proof. reflexivity. Qed.
+
+(* the xattr lists of an image are the ones the xattr writer produces for
+   this sequence of entries (hard link records carry no xattrs) *)
+Fixpoint settled (tbl : list (list N)) (es : list tentry) : Prop :=
+  match es with
+  | [] => True
+  | t :: r =>
+    let xs := if e_hardlink (te_e t) then [] else te_xattr t in
+    snd (store_xattrs tbl xs) = xs /\ settled (fst (store_xattrs tbl xs)) r
+  end.
+
+Lemma write_entries_reimage es : forall tbl counter,
+  Forall entry_ok es -> Forall img_shape es -> settled tbl es ->
+  write_entries (reimage_all tbl (map view es)) counter = write_entries es counter.
+Proof.
+  induction es as [|t es IH]; intros tbl counter Hok Hsh Hst; [reflexivity|].
   inversion Hok as [|? ? (W & _ & _) Hok']; inversion Hsh as [|? ? S Hsh']; subst.
-  cbn [map]. rewrite !write_entries_eq.
-  destruct (reimage_view_same t counter (wf_mode _ _ _ W) S) as (Eh & Eb).
+  cbn [settled] in Hst. destruct Hst as [Hx Hst].
+  cbn [map reimage_all]. rewrite !write_entries_eq. rewrite view_xattr.
+  destruct (reimage_view_same t (snd (store_xattrs tbl (if e_hardlink (te_e t) then [] else te_xattr t)))
+                              counter (wf_mode _ _ _ W) S) as (Eh & Eb).
+  { intro Hh. rewrite Hx, Hh. reflexivity. }
   rewrite Eh, Eb, IH by assumption. reflexivity.
 Qed.
 
 (* tar -> sqfs -> tar -> sqfs: the second archive is the first, byte for byte *)
 Theorem conv_fixpoint_l es :
-  Forall entry_ok es -> Forall img_shape es ->
+  Forall entry_ok es -> Forall img_shape es -> settled [] es ->
   exists es', convert es = RA_Ok es' /\ write_archive es' = write_archive es.
 Proof.
-  intros Hok Hsh. unfold convert. rewrite (archive_rt_l es Hok).
+  intros Hok Hsh Hst. unfold convert. rewrite (archive_rt_l es Hok).
   eexists. split; [reflexivity|].
   rewrite views_all_supported.
   - unfold write_archive. rewrite write_entries_reimage by assumption. reflexivity.
@@ -610,8 +701,8 @@ Qed.
 
 Definition short_name (t : tentry) : Prop := N.of_nat (length (e_name (te_e t))) < MAX_LEN.
 
-Lemma reimage_view_shape t :
-  entry_ok t -> supported t = true -> img_shape (reimage (view t)).
+Lemma reimage_view_shape t xs :
+  entry_ok t -> supported t = true -> img_shape (reimage (view t) xs).
 Proof.
   intros (W & _ & (c & Hc)) Hs.
   pose proof (view_mode_gen t (wf_mode _ _ _ W)) as Em.
@@ -630,10 +721,12 @@ Proof.
     intros [H|H]; [discriminate|]. apply N.eqb_neq in El. contradiction.
 Qed.
 
-Lemma reimage_view_ok t :
-  entry_ok t -> short_name t -> entry_ok (reimage (view t)).
+Lemma reimage_view_ok t xs :
+  entry_ok t -> short_name t ->
+  Forall xattr_ok xs -> length (schily_payload xs) = length (schily_payload (te_xattr (view t))) ->
+  entry_ok (reimage (view t) xs).
 Proof.
-  intros (W & Hd & (c & Hc)) Hshort.
+  intros (W & Hd & (c & Hc)) Hshort Hxok Hxlen.
   pose proof (view_mode_gen t (wf_mode _ _ _ W)) as Em.
   destruct (view_facts t) as (Fh & Fu & Fg & Ft & Fn & Ftg & Fs & Fd).
   destruct (canon_of_canonical _ _ Hc) as (C1 & C2).
@@ -646,7 +739,7 @@ Proof.
   assert (Hreg : is_reg (e_mode (te_e (view t))) = is_reg (e_mode (te_e t)) && negb (e_hardlink (te_e t))).
   { apply (is_reg_decoded (te_e t) (te_target t) (rev (te_xattr t)) (canon_name (e_name (te_e t)))
                           (wf_mode _ _ _ W)). }
-  assert (Hname : e_name (te_e (reimage (view t))) =
+  assert (Hname : e_name (te_e (reimage (view t) xs)) =
                   if is_dir (e_mode (te_e (view t))) then c ++ [47] else c).
   { unfold reimage. cbn [te_e e_name]. rewrite Fn. unfold canon_name. rewrite Hc. reflexivity. }
   split; [|split].
@@ -673,9 +766,8 @@ Proof.
         destruct (ftype (e_mode (te_e t)) =? S_IFLNK) eqn:El; [right; apply N.eqb_eq; exact El|].
         destruct H as [H|H]; [discriminate|]. apply N.eqb_neq in El. contradiction. }
       rewrite (Ftg H'). apply (wf_target _ _ _ W H').
-    + unfold reimage. cbn [te_xattr]. rewrite view_xattr.
-      destruct (e_hardlink (te_e t)); [constructor|apply (wf_xattr _ _ _ W)].
-    + unfold reimage. cbn [te_xattr]. rewrite view_xattr.
+    + unfold reimage. cbn [te_xattr]. exact Hxok.
+    + unfold reimage. cbn [te_xattr]. rewrite Hxlen, view_xattr.
       destruct (e_hardlink (te_e t)); [cbn; unfold MAX_LEN; lia|apply (wf_xattr_len _ _ _ W)].
   - unfold data_ok, reimage. cbn [te_e te_data e_mode e_hardlink e_size]. rewrite Fh.
     intro R. apply andb_prop in R. destruct R as [R1 R2]. rewrite Hreg in R1.
@@ -684,28 +776,87 @@ Proof.
   - exists c. rewrite Hname. destruct (is_dir (e_mode (te_e (view t)))); assumption.
 Qed.
 
+(* the stored list is a rearrangement of the decoded one *)
+Lemma xins_perm tbl x l : Permutation (xins tbl x l) (x :: l).
+Proof.
+  induction l as [|y r IH]; cbn [xins]; [apply Permutation_refl|].
+  destruct (Nat.leb _ _); [apply Permutation_refl|].
+  eapply Permutation_trans; [apply perm_skip; exact IH|apply perm_swap].
+Qed.
+
+Lemma xsort_perm tbl l : Permutation (xsort tbl l) l.
+Proof.
+  induction l as [|x l IH]; [apply Permutation_refl|].
+  change (xsort tbl (x :: l)) with (xins tbl x (xsort tbl l)).
+  eapply Permutation_trans; [apply xins_perm|apply perm_skip; exact IH].
+Qed.
+
+Lemma filter_split_perm {A} (f : A -> bool) l :
+  Permutation (filter f l ++ filter (fun x => negb (f x)) l) l.
+Proof.
+  induction l as [|x l IH]; [apply Permutation_refl|]. cbn [filter].
+  destruct (f x); cbn [negb app]; [apply perm_skip; exact IH|].
+  eapply Permutation_trans; [apply Permutation_sym, Permutation_middle|apply perm_skip; exact IH].
+Qed.
+
+Lemma store_xattrs_perm tbl xs : Permutation (snd (store_xattrs tbl xs)) xs.
+Proof.
+  unfold store_xattrs. cbn [snd].
+  eapply Permutation_trans; [apply Permutation_app_tail, xsort_perm|].
+  apply (filter_split_perm (fun x => key_mem tbl (fst x))).
+Qed.
+
+Lemma schily_payload_perm xs ys :
+  Permutation xs ys -> length (schily_payload xs) = length (schily_payload ys).
+Proof.
+  unfold schily_payload. induction 1 as [|x l l' H IH|x y l|l l' l'' H1 IH1 H2 IH2];
+    cbn [map concat]; rewrite ?app_length; lia.
+Qed.
+
 (* any image at all: the first round may change the archive (sockets vanish,
    symlink permissions become 0777, time stamps are clamped, names are
-   canonicalised), the second round changes nothing *)
+   canonicalised, the xattrs of an inode are rearranged into the order of the
+   new image's key table), the second round changes nothing *)
+Lemma round_one es : forall tbl,
+  Forall entry_ok es -> Forall short_name es ->
+  let es1 := reimage_all tbl (views es) in
+  Forall entry_ok es1 /\ Forall img_shape es1 /\ settled tbl es1.
+Proof.
+  induction es as [|t es IH]; intros tbl Hok Hsh; cbv zeta; [repeat split; constructor|].
+  inversion Hok as [|? ? Ht Hes]; inversion Hsh as [|? ? St Ses]; subst.
+  unfold views in *. cbn [flat_map].
+  destruct (supported t) eqn:Hs; cbn [app]; [|apply IH; assumption].
+  cbn [reimage_all].
+  set (st := store_xattrs tbl (te_xattr (view t))).
+  destruct (IH (fst st) Hes Ses) as (I1 & I2 & I3).
+  assert (Hperm : Permutation (snd st) (te_xattr (view t))) by apply store_xattrs_perm.
+  split; [|split].
+  - constructor; [|exact I1]. apply reimage_view_ok; try assumption.
+    + eapply Permutation_Forall; [apply Permutation_sym; exact Hperm|].
+      rewrite view_xattr. destruct Ht as (W & _). destruct (e_hardlink (te_e t)); [constructor|apply (wf_xattr _ _ _ W)].
+    + apply schily_payload_perm. exact Hperm.
+  - constructor; [|exact I2]. apply reimage_view_shape; assumption.
+  - cbn [settled].
+    change (te_xattr (reimage (view t) (snd st))) with (snd st).
+    change (e_hardlink (te_e (reimage (view t) (snd st)))) with (e_hardlink (te_e (view t))).
+    assert (E : (if e_hardlink (te_e (view t)) then [] else snd st) = snd st).
+    { destruct (e_hardlink (te_e (view t))) eqn:Hh; [|reflexivity].
+      unfold st. rewrite view_xattr.
+      destruct (view_facts t) as (Fh & _). rewrite Fh in Hh. rewrite Hh. reflexivity. }
+    rewrite E. unfold st at 1 2 3. rewrite store_xattrs_idem. fold st. split; [reflexivity|exact I3].
+Qed.
+
 Theorem conv_second_round_l es :
   Forall entry_ok es -> Forall short_name es ->
   exists es1 es2, convert es = RA_Ok es1 /\ convert es1 = RA_Ok es2 /\
                   write_archive es2 = write_archive es1.
 Proof.
   intros Hok Hsh.
-  assert (H1 : convert es = RA_Ok (map reimage (views es))).
+  assert (H1 : convert es = RA_Ok (reimage_all [] (views es))).
   { unfold convert. rewrite (archive_rt_l es Hok). reflexivity. }
-  assert (Hboth : Forall entry_ok (map reimage (views es)) /\ Forall img_shape (map reimage (views es))).
-  { clear H1. induction es as [|t es IH]; [split; constructor|].
-    inversion Hok as [|? ? Ht Hes]; inversion Hsh as [|? ? St Ses]; subst.
-    destruct (IH Hes Ses) as (I1 & I2). unfold views in *. cbn [flat_map].
-    destruct (supported t) eqn:Hs; cbn [app map]; [|split; assumption].
-    split; constructor; try assumption.
-    - apply reimage_view_ok; assumption.
-    - apply reimage_view_shape; assumption. }
-  destruct Hboth as (Hok1 & Hsh1).
-  destruct (conv_fixpoint_l _ Hok1 Hsh1) as (es2 & H2 & H3).
-  exists (map reimage (views es)), es2. repeat split; assumption.
+  destruct (round_one es [] Hok Hsh) as (Hok1 & Hsh1 & Hst1).
+  destruct (conv_fixpoint_l _ Hok1 Hsh1 Hst1) as (es2 & H2 & H3).
+  exists (reimage_all [] (views es)), es2. repeat split; assumption.
 Qed.
 
 (* ================= the unrepaired sqfs2tar ================= *)
@@ -842,3 +993,52 @@ Qed.
 (* the repaired sqfs2tar on the same image *)
 Lemma new_sqfs2tar_stable : convert osc_a = RA_Ok osc_a.
 Proof. vm_compute. reflexivity. Qed.
+
+(* ---- boolean checker for [settled] ---- *)
+Fixpoint xlist_eqb (a b : list xattr) : bool :=
+  match a, b with
+  | [], [] => true
+  | (k1, v1) :: a', (k2, v2) :: b' => list_eqb k1 k2 && list_eqb v1 v2 && xlist_eqb a' b'
+  | _, _ => false
+  end.
+
+Lemma xlist_eqb_true a : forall b, xlist_eqb a b = true -> a = b.
+Proof.
+  induction a as [|[k1 v1] a IH]; intros [|[k2 v2] b] H; cbn [xlist_eqb] in H; try discriminate; [reflexivity|].
+  apply andb_prop in H. destruct H as [H H3]. apply andb_prop in H. destruct H as [H1 H2].
+  apply list_eqb_true in H1, H2. subst. f_equal. apply IH. exact H3.
+Qed.
+
+Fixpoint settledb (tbl : list (list N)) (es : list tentry) : bool :=
+  match es with
+  | [] => true
+  | t :: r =>
+    let xs := if e_hardlink (te_e t) then [] else te_xattr t in
+    xlist_eqb (snd (store_xattrs tbl xs)) xs && settledb (fst (store_xattrs tbl xs)) r
+  end.
+
+Lemma settledb_sound es : forall tbl, settledb tbl es = true -> settled tbl es.
+Proof.
+  induction es as [|t es IH]; intros tbl H; [exact I|]. cbn [settledb settled] in *.
+  apply andb_prop in H. destruct H as [H1 H2]. split; [apply xlist_eqb_true; exact H1|apply IH; exact H2].
+Qed.
+
+(* two files sharing keys: the first round only rearranges the xattrs of the
+   second file into the order of the new image's key table (user.b was seen
+   first), the second round changes nothing *)
+Definition settle_a : list tentry :=
+  [mkte (mkentry [102] (S_IFREG + 420) 0 0 1 5%Z 0 false) None [x_user_b] [104];
+   mkte (mkentry [103] (S_IFREG + 420) 0 0 1 5%Z 0 false) None [x_user_a; x_user_b] [105]].
+Definition settle_b : list tentry :=
+  [mkte (mkentry [102] (S_IFREG + 420) 0 0 1 5%Z 0 false) None [x_user_b] [104];
+   mkte (mkentry [103] (S_IFREG + 420) 0 0 1 5%Z 0 false) None [x_user_b; x_user_a] [105]].
+
+Lemma xattr_order_settles :
+  convert settle_a = RA_Ok settle_b /\ convert settle_b = RA_Ok settle_b /\
+  write_archive settle_b <> write_archive settle_a.
+Proof.
+  split; [|split].
+  - vm_compute. reflexivity.
+  - vm_compute. reflexivity.
+  - apply list_eqb_false. vm_compute. reflexivity.
+Qed.
